@@ -3,19 +3,29 @@
 (* from_parts / into_parts (C17): subtags in any letter case, variants in  *)
 (* any order with repetitions, up to MaxV variants.                        *)
 (***************************************************************************)
-EXTENDS Locale, Ascii, TLC, Json
+EXTENDS Locale, Ascii, TLC, Json, IOUtils
 
 CONSTANT MaxV
 VARIABLES l, s, r, vs
 
-Langs   == { B("en"), B("UND"), B("abcde") }
-Scripts == { <<>>, B("latn"), B("CYRL") }
-Regions == { <<>>, B("us"), B("419") }
-Vars    == { B("valencia"), B("1996"), B("VALENCIA"), B("abcde"), B("1abc"), B("1959acad"), B("12345") }
+(* words the library's own sources mention (VERIF_DICT), in the positions they fit: a code the parser treats specially    *)
+(* (an alias table, a legacy code) must come out of from_parts exactly as it comes out of parsing the joined text         *)
+DictRaw == JsonDeserialize(IOEnv.VERIF_DICT)
+DictWords == { DictRaw[n] : n \in 1..Len(DictRaw) }
+DLangs   == { w \in DictWords : IsLanguage(w) }
+DScripts == { w \in DictWords : IsScript(w) }
+DRegions == { w \in DictWords : IsRegion(w) }
+DVars    == { w \in DictWords : IsVariant(w) }
+Langs   == { B("en"), B("UND"), B("abcde") } \cup DLangs
+Scripts == { <<>>, B("latn"), B("CYRL") } \cup DScripts
+Regions == { <<>>, B("us"), B("419") } \cup DRegions
+BaseVars == { B("valencia"), B("1996"), B("VALENCIA"), B("abcde"), B("1abc"), B("1959acad"), B("12345") }
+Vars    == BaseVars \cup DVars
+FromDict == l \in DLangs \/ s \in DScripts \/ r \in DRegions
 
 Init == l \in Langs /\ s \in Scripts /\ r \in Regions /\ vs = <<>>
-Next == /\ Len(vs) < MaxV
-        /\ \E v \in Vars : vs' = Append(vs, v)
+Next == /\ Len(vs) < (IF FromDict THEN 1 ELSE MaxV)
+        /\ \E v \in (IF Len(vs) = 0 THEN Vars ELSE BaseVars) : vs' = Append(vs, v)      \* a dictionary word as the first variant only
         /\ UNCHANGED <<l, s, r>>
 Spec == Init /\ [][Next]_<<l, s, r, vs>>
 
